@@ -7,8 +7,12 @@ import (
 	"os"
 	"regexp"
 
+	"time"
+
 	"verifharness/engine"
 	"verifharness/gen"
+	"verifharness/model"
+	"verifharness/simdisk"
 )
 
 // histReplay is the replay format of all engine based campaigns.
@@ -133,7 +137,7 @@ func init() {
 	register("c03", func(args []string) int {
 		f := parseFlags("c03", args)
 		rep := newReport("C03", f)
-		rep.Rule = "random transaction histories (alloc / full+partial SetBytes / Load+MarkDirty / read / free / Flush / page Flush / CheckpointWAL / SetRoot / commit / rollback / close / reopen / concurrent readers) on 8 file configurations; every read inside and outside transactions is compared with a sequential map model; non-trivial = history with at least one committed write; distinct by (config, op-kind multiset)"
+		rep.Rule = "K1: random scripts on the page write buffer of a fresh / an existing page (full, partial and oversize SetBytes, Load, in-place modification + MarkDirty, Bytes, Flush, Free) through the public API vs. the Coq model (result kind and bytes after every step); stall scenarios (13-52 pages flushed, rolled back, re-allocated and rewritten while the writer goroutine is slowed down: both writes to a page land in one batch of more than 12 entries); random transaction histories (alloc / full+partial SetBytes / Load+MarkDirty / read / free / Flush / page Flush / CheckpointWAL / SetRoot / commit / rollback / close / reopen / concurrent readers) on 8 file configurations; every read inside and outside transactions is compared with a sequential map model; non-trivial = history with at least one committed write; distinct by (config, op-kind multiset)"
 		if f.replay != "" {
 			rp, err := loadHistReplay(f.replay)
 			if err != nil {
@@ -151,12 +155,34 @@ func init() {
 		if f.n > 0 {
 			n = f.n
 		}
+		m, err := model.Start()
+		if err != nil {
+			fmt.Fprintln(os.Stderr, err)
+			return 2
+		}
+		defer m.Close()
+		pageK1(rep, m, r, n/2)
+		rep.ModelCalls = m.N
+		for i := 0; i < n/10+3; i++ {
+			stallScenario(rep, r)
+		}
 		for i := 0; i < n; i++ {
 			hseed := r.Int63()
 			hr := rand.New(rand.NewSource(hseed))
 			cfg := gen.PickConfig(hr)
 			ops := gen.History(hr, gen.DefaultProfile())
-			e := runOracleHistory(rep, cfg, ops, hseed, "", nil, nil)
+			var setup func(*engine.Engine)
+			if i%3 == 0 {
+				// slow writer goroutine: several transactions' page writes end up in one batch
+				setup = func(e *engine.Engine) {
+					e.Disk.Hook = func(kind simdisk.OpKind, idx int) {
+						if kind == simdisk.OpWrite && idx%7 == 2 {
+							time.Sleep(300 * time.Microsecond)
+						}
+					}
+				}
+			}
+			e := runOracleHistory(rep, cfg, ops, hseed, "", setup, nil)
 			if e != nil && e.Stats["commit"] > e.Stats["err:commit"] {
 				rep.nontrivial(fmt.Sprintf("%s/%v", cfg, e.Stats))
 			}
